@@ -363,16 +363,20 @@ impl<'a, 'b> Shader for ImageRepeatAlphaShader<'a, 'b> {
 pub struct RadialGradientShader {
     gradient: Box<GradientSource>,
     spread: Spread,
+    alpha: u32,
 }
 
 impl RadialGradientShader {
     pub fn new(gradient: &Gradient, transform: &Transform, spread: Spread, alpha: u32) -> RadialGradientShader {
         RadialGradientShader {
+            // the global alpha is applied to the premultiplied colours in shade_span:
+            // the colour table would apply it before *and* during premultiplication
             gradient: gradient.make_source(&transform_to_fixed(
                 &transform.pre_translate(vec2(0.5, 0.5))),
-                alpha
+                255
             ),
             spread,
+            alpha: alpha_to_alpha256(alpha),
         }
     }
 }
@@ -380,7 +384,7 @@ impl RadialGradientShader {
 impl Shader for RadialGradientShader {
     fn shade_span(&self, mut x: i32, y: i32, dest: &mut [u32], count: usize) {
         for i in 0..count {
-            dest[i] = self.gradient.radial_gradient_eval(x as u16, y as u16, self.spread);
+            dest[i] = alpha_mul(self.gradient.radial_gradient_eval(x as u16, y as u16, self.spread), self.alpha);
             x += 1;
         }
     }
@@ -389,6 +393,7 @@ impl Shader for RadialGradientShader {
 pub struct TwoCircleRadialGradientShader {
     gradient: Box<TwoCircleRadialGradientSource>,
     spread: Spread,
+    alpha: u32,
 }
 
 impl TwoCircleRadialGradientShader {
@@ -406,9 +411,10 @@ impl TwoCircleRadialGradientShader {
                 r1,
                 c2.x, c2.y,
                 r2,
-                &transform_to_fixed(&transform.pre_translate(vec2(0.5, 0.5))), alpha
+                &transform_to_fixed(&transform.pre_translate(vec2(0.5, 0.5))), 255
             ),
             spread,
+            alpha: alpha_to_alpha256(alpha),
         }
     }
 }
@@ -416,7 +422,7 @@ impl TwoCircleRadialGradientShader {
 impl Shader for TwoCircleRadialGradientShader {
     fn shade_span(&self, mut x: i32, y: i32, dest: &mut [u32], count: usize) {
         for i in 0..count {
-            dest[i] = self.gradient.eval(x as u16, y as u16, self.spread);
+            dest[i] = alpha_mul(self.gradient.eval(x as u16, y as u16, self.spread), self.alpha);
             x += 1;
         }
     }
@@ -425,6 +431,7 @@ impl Shader for TwoCircleRadialGradientShader {
 pub struct SweepGradientShader {
     gradient: Box<SweepGradientSource>,
     spread: Spread,
+    alpha: u32,
 }
 
 impl SweepGradientShader {
@@ -438,9 +445,10 @@ impl SweepGradientShader {
             gradient: gradient.make_sweep_source(
                 start_angle,
                 end_angle,
-                &transform_to_fixed(&transform.pre_translate(vec2(0.5, 0.5))), alpha
+                &transform_to_fixed(&transform.pre_translate(vec2(0.5, 0.5))), 255
             ),
             spread,
+            alpha: alpha_to_alpha256(alpha),
         }
     }
 }
@@ -448,7 +456,7 @@ impl SweepGradientShader {
 impl Shader for SweepGradientShader {
     fn shade_span(&self, mut x: i32, y: i32, dest: &mut [u32], count: usize) {
         for i in 0..count {
-            dest[i] = self.gradient.eval(x as u16, y as u16, self.spread);
+            dest[i] = alpha_mul(self.gradient.eval(x as u16, y as u16, self.spread), self.alpha);
             x += 1;
         }
     }
@@ -457,6 +465,7 @@ impl Shader for SweepGradientShader {
 pub struct LinearGradientShader {
     gradient: Box<GradientSource>,
     spread: Spread,
+    alpha: u32,
 }
 
 impl LinearGradientShader {
@@ -464,9 +473,10 @@ impl LinearGradientShader {
         LinearGradientShader {
             gradient: gradient.make_source(&transform_to_fixed(
                 &transform.pre_translate(vec2(0.5, 0.5))),
-                alpha
+                255
             ),
             spread,
+            alpha: alpha_to_alpha256(alpha),
         }
     }
 }
@@ -474,7 +484,7 @@ impl LinearGradientShader {
 impl Shader for LinearGradientShader {
     fn shade_span(&self, mut x: i32, y: i32, dest: &mut [u32], count: usize) {
         for i in 0..count {
-            dest[i] = self.gradient.linear_gradient_eval(x as u16, y as u16, self.spread);
+            dest[i] = alpha_mul(self.gradient.linear_gradient_eval(x as u16, y as u16, self.spread), self.alpha);
             x += 1;
         }
     }
